@@ -360,3 +360,41 @@ func FieldDiff(a, b ref.V) string {
 	}
 	return ""
 }
+
+// FieldsFromPayload derives, independently of go-ucan's decoding, the Fields value a
+// token decoded from this payload must show.
+func FieldsFromPayload(tag string, p ref.V) (ref.V, error) {
+	get := func(k string) ref.V {
+		v, ok := p.Get(k)
+		if !ok {
+			return ref.Null()
+		}
+		return v
+	}
+	metaOf := func() ref.V {
+		m, ok := p.Get("meta")
+		if !ok || m.K != ref.KMap {
+			return ref.Map()
+		}
+		return m.SortedMap()
+	}
+	switch tag {
+	case ref.TagDelegation:
+		return ref.Map(
+			ref.E("type", ref.Str("dlg")), ref.E("iss", get("iss")), ref.E("aud", get("aud")), ref.E("sub", get("sub")),
+			ref.E("cmd", get("cmd")), ref.E("pol", get("pol")), ref.E("nonce", get("nonce")), ref.E("meta", metaOf()),
+			ref.E("nbf", get("nbf")), ref.E("exp", get("exp")),
+		), nil
+	case ref.TagInvocation:
+		args := get("args")
+		if args.K == ref.KMap {
+			args = args.SortedMap()
+		}
+		return ref.Map(
+			ref.E("type", ref.Str("inv")), ref.E("iss", get("iss")), ref.E("aud", get("aud")), ref.E("sub", get("sub")),
+			ref.E("cmd", get("cmd")), ref.E("args", args), ref.E("prf", get("prf")), ref.E("nonce", get("nonce")), ref.E("meta", metaOf()),
+			ref.E("exp", get("exp")), ref.E("iat", get("iat")), ref.E("cause", get("cause")),
+		), nil
+	}
+	return ref.V{}, fmt.Errorf("unknown tag %q", tag)
+}
